@@ -90,6 +90,13 @@ Definition trunc2k (w : Z) (sg : bool) (k : Z) (x : Z * Z * Z) (masks : Z * Z * 
 Definition trunc2k_admissible (w : Z) (sg : bool) (k : Z) : Prop :=
   1 <= k <= (if sg then w - 2 else w - 1).
 
+(* documented input range of TruncateMPC2K (:137-138): [-modulus/4, modulus/4) signed, [0, modulus/2) unsigned *)
+Definition in_range2k (w : Z) (sg : bool) (x : Z) : Prop :=
+  if sg then - (2 ^ w / 4) <= x < 2 ^ w / 4 else 0 <= x < 2 ^ w / 2.
+(* the mask r among the six, and the documented rounding bit w of :140 as a function of x and r *)
+Definition mask_r (m : Z * Z * Z * Z * Z * Z) : Z := let '(r, _, _, _, _, _) := m in r.
+Definition carry2k (k x r : Z) : Z := if 2 ^ k <=? x mod 2 ^ k + r mod 2 ^ k then 1 else 0.
+
 (* ------------------------------------------------------------------------------------------------
    TruncateMPC { scale }, mpc_truncate.rs:28-128, private input (two arguments), scale <> 1, signed
    types only (:84-88).  r = PRF(k_12) (:104-105). *)
